@@ -34,17 +34,31 @@ Section Loops.
   Proof.
     induction K2 as [|k r IH]; intros com cmp s.
     - simpl. now rewrite !app_nil_r, andb_true_r.
-    - cbn [fold_left]. unfold w1_step at 2. unfold ai_value. fold (wcnt k).
-      cbn [filter forallb]. unfold wsame1 at 1, wdiff at 1, wfound at 1 2, oreflen.
-      destruct (wcnt k) eqn:C; cbn [negb orb andb].
-      + destruct (assoc_value ekey einfo_v ekey_eqb ra k) as [[i reflen]|] eqn:E; cbn [is_some negb snd].
-        * destruct (qeqb reflen (ek_len k)) eqn:Q.
-          -- rewrite IH. cbn [map]. unfold wdiff at 1, oreflen. rewrite E. cbn [snd].
-             rewrite <- !app_assoc. cbn [app]. now rewrite andb_true_r.
-          -- rewrite IH. cbn [map]. unfold wdiff at 1, oreflen. rewrite E. cbn [snd].
-             rewrite <- !app_assoc. cbn [app]. now rewrite andb_false_r.
-        * rewrite IH. cbn [map]. rewrite <- !app_assoc. cbn [app]. now rewrite andb_false_r.
-      + rewrite IH. now rewrite andb_true_r.
+    - cbn [fold_left filter forallb].
+      assert (STEP : w1_step aindex ai_value tips false ra (Some (com, cmp, s, false)) k =
+                     Some (if wcnt k
+                           then match assoc_value ekey einfo_v ekey_eqb ra k with
+                                | Some v => (com ++ [(snd v - ek_len k)%Q], cmp, s && qeqb (snd v) (ek_len k), false)
+                                | None => (com, cmp ++ [ek_len k], false, false)
+                                end
+                           else (com, cmp, s, false))).
+      { unfold w1_step, ai_value. fold (wcnt k). destruct (wcnt k); auto.
+        destruct (assoc_value ekey einfo_v ekey_eqb ra k) as [[i l]|]; auto. cbn [snd].
+        destruct (qeqb l (ek_len k)); rewrite ?andb_true_r, ?andb_false_r; auto. }
+      rewrite STEP. clear STEP.
+      destruct (wcnt k) eqn:C; cbn [andb].
+      + destruct (assoc_value ekey einfo_v ekey_eqb ra k) as [[i l]|] eqn:E.
+        * assert (Fk : wfound ra k = true) by (unfold wfound; rewrite E; reflexivity).
+          assert (Dk : wdiff k = (l - ek_len k)%Q) by (unfold wdiff, oreflen; rewrite E; reflexivity).
+          assert (Sk : wsame1 k = qeqb l (ek_len k)) by (unfold wsame1, oreflen; rewrite C, E; reflexivity).
+          rewrite Fk, Sk. cbn [negb map snd]. rewrite Dk, IH. rewrite <- !app_assoc. cbn [app].
+          now rewrite andb_assoc.
+        * assert (Fk : wfound ra k = false) by (unfold wfound; rewrite E; reflexivity).
+          assert (Sk : wsame1 k = false) by (unfold wsame1, oreflen; rewrite C, E; reflexivity).
+          rewrite Fk, Sk. cbn [negb map]. rewrite IH. rewrite <- !app_assoc. cbn [app].
+          now rewrite andb_false_r.
+      + assert (Sk : wsame1 k = true) by (unfold wsame1; rewrite C; reflexivity).
+        rewrite Sk, IH. reflexivity.
   Qed.
 
   Lemma qeqb_diff (l x : Q) : qeqb l x = qeqb (l - x)%Q 0%Q.
@@ -60,16 +74,32 @@ Section Loops.
     Nat.eqb (length (map ek_len (filter (fun k => wcnt k && negb (wfound ra k)) K))) 0
     && forallb (fun x => qeqb x 0%Q) (map wdiff (filter (fun k => wcnt k && wfound ra k) K)).
   Proof.
-    induction K as [|k r IH]; simpl; auto.
-    unfold wsame1 at 1, wfound at 1 2 3, wdiff at 1, oreflen.
-    destruct (wcnt k); simpl; auto.
-    destruct (assoc_value ekey einfo_v ekey_eqb ra k) as [[i l]|]; simpl.
-    - rewrite IH. rewrite (qeqb_diff l (ek_len k)).
-      destruct (qeqb (l - ek_len k) 0); simpl; auto. now rewrite !andb_false_r.
-    - reflexivity.
+    induction K as [|k r IH]; [reflexivity|].
+    cbn [forallb filter].
+    destruct (wcnt k) eqn:C; cbn [andb].
+    - destruct (assoc_value ekey einfo_v ekey_eqb ra k) as [[i l]|] eqn:E.
+      + assert (Fk : wfound ra k = true) by (unfold wfound; rewrite E; reflexivity).
+        assert (Dk : wdiff k = (l - ek_len k)%Q) by (unfold wdiff, oreflen; rewrite E; reflexivity).
+        assert (Sk : wsame1 k = qeqb l (ek_len k)) by (unfold wsame1, oreflen; rewrite C, E; reflexivity).
+        rewrite Fk, Sk. cbn [negb map forallb]. rewrite Dk, IH, (qeqb_diff l (ek_len k)).
+        destruct (qeqb (l - ek_len k) 0); cbn [andb]; [reflexivity|]. now rewrite andb_false_r.
+      + assert (Fk : wfound ra k = false) by (unfold wfound; rewrite E; reflexivity).
+        assert (Sk : wsame1 k = false) by (unfold wsame1, oreflen; rewrite C, E; reflexivity).
+        rewrite Fk, Sk. cbn [negb map length]. reflexivity.
+    - assert (Sk : wsame1 k = true) by (unfold wsame1; rewrite C; reflexivity).
+      rewrite Sk. exact IH.
   Qed.
 
   Definition wsame2 (k : ekey) : bool := negb (wcnt k) || wfound ca k.
+
+  Lemma same2_split K :
+    forallb wsame2 K = Nat.eqb (length (map ek_len (filter (fun k => wcnt k && negb (wfound ca k)) K))) 0.
+  Proof.
+    induction K as [|k r IH]; [reflexivity|].
+    cbn [forallb filter]. unfold wsame2 at 1.
+    destruct (wcnt k); cbn [negb orb andb]; [|exact IH].
+    destruct (wfound ca k); cbn [negb]; [exact IH|reflexivity].
+  Qed.
 
   Lemma fold_w2 : forall K1 rf s,
       fold_left (w2_step aindex ai_value tips false ca) K1 (Some (rf, s, false)) =
@@ -77,13 +107,28 @@ Section Loops.
   Proof.
     induction K1 as [|k r IH]; intros rf s.
     - simpl. now rewrite app_nil_r, andb_true_r.
-    - cbn [fold_left]. unfold w2_step at 2. unfold ai_value. fold (wcnt k).
-      cbn [filter forallb]. unfold wsame2 at 1, wfound at 1 2.
-      destruct (wcnt k) eqn:C; cbn [negb orb andb].
-      + destruct (assoc_value ekey einfo_v ekey_eqb ca k) as [v|] eqn:E; cbn [is_some negb].
-        * rewrite IH. now rewrite andb_true_r.
-        * rewrite IH. cbn [map]. rewrite <- app_assoc. cbn [app]. now rewrite andb_false_r.
-      + rewrite IH. now rewrite andb_true_r.
+    - cbn [fold_left filter forallb].
+      assert (STEP : w2_step aindex ai_value tips false ca (Some (rf, s, false)) k =
+                     Some (if wcnt k
+                           then match assoc_value ekey einfo_v ekey_eqb ca k with
+                                | Some _ => (rf, s, false)
+                                | None => (rf ++ [ek_len k], false, false)
+                                end
+                           else (rf, s, false))).
+      { unfold w2_step, ai_value. fold (wcnt k). destruct (wcnt k); auto.
+        destruct (assoc_value ekey einfo_v ekey_eqb ca k); auto. }
+      rewrite STEP. clear STEP.
+      destruct (wcnt k) eqn:C; cbn [andb].
+      + destruct (assoc_value ekey einfo_v ekey_eqb ca k) as [v|] eqn:E.
+        * assert (Fk : wfound ca k = true) by (unfold wfound; rewrite E; reflexivity).
+          assert (Sk : wsame2 k = true) by (unfold wsame2; rewrite Fk; apply orb_true_r).
+          rewrite Fk, Sk. cbn [negb]. rewrite IH. reflexivity.
+        * assert (Fk : wfound ca k = false) by (unfold wfound; rewrite E; reflexivity).
+          assert (Sk : wsame2 k = false) by (unfold wsame2; rewrite Fk, C; reflexivity).
+          rewrite Fk, Sk. cbn [negb map]. rewrite IH. rewrite <- app_assoc. cbn [app].
+          now rewrite andb_false_r.
+      + assert (Sk : wsame2 k = true) by (unfold wsame2; rewrite C; reflexivity).
+        rewrite Sk, IH. reflexivity.
   Qed.
 End Loops.
 
@@ -148,7 +193,8 @@ Section Abs.
         - apply sset_eqb_eq in E1. apply sset_eqb_false in E2. congruence.
         - apply sset_eqb_eq in E2. apply sset_eqb_false in E1. congruence. }
       rewrite SYM. destruct (sset_eqb (sside sq) (sside s)).
-      + simpl. f_equal. rewrite (Hv (k, v0) (or_introl eq_refl)). simpl. apply (KS_len _ _ Hks).
+      + simpl. f_equal. pose proof (Hv (k, v0) (or_introl eq_refl)) as Hv0. simpl in Hv0. rewrite Hv0.
+        apply (KS_len _ _ Hks).
       + apply (IH a eq_refl); auto. intros kv Hkv. apply Hv. now right.
   Qed.
 
@@ -294,8 +340,8 @@ Proof.
       rewrite (IHF I'). f_equal.
       unfold wdiff. rewrite (Er1 _ _ Hks). unfold len_in. rewrite (FS12 s Hs C).
       rewrite (KS_len _ _ Hks).
-      destruct (find_split (sside s) B1); auto.
-      rewrite find_split_has_key in H1. destruct (find_split (sside s) B1); discriminate. }
+      rewrite find_split_has_key in H1.
+      destruct (find_split (sside s) B1); [reflexivity|discriminate]. }
     apply GEN; auto. apply incl_refl. }
   rewrite L1, L2, L3.
   (* sametree *)
@@ -304,8 +350,7 @@ Proof.
   assert (SA : forallb (wsame1 tips ra) K2 = Nat.eqb (length (spec_w_only2 tips t1 t2)) 0 && all_zero (spec_w_common tips t1 t2)).
   { rewrite <- L2, <- L3. apply same1_split. }
   assert (SB : forallb (wsame2 tips ca) K1 = Nat.eqb (length (spec_w_only1 tips t1 t2)) 0).
-  { rewrite <- L1. rewrite map_length. rewrite <- forallb_filter_nil.
-    apply forallb_ext_in. intros k _. unfold wsame2. destruct (wcnt tips k); simpl; auto. now rewrite negb_involutive. }
+  { rewrite <- L1. apply same2_split. }
   rewrite SA, SB.
   destruct (Nat.eqb (length (spec_w_only1 tips t1 t2)) 0), (Nat.eqb (length (spec_w_only2 tips t1 t2)) 0),
     (all_zero (spec_w_common tips t1 t2)); reflexivity.
